@@ -30,6 +30,7 @@ contract(S + '_ldd_library_pattern', params={'library_name': 'str'}, returns='Pa
 contract('re.Pattern.match', params={'self': 'Pattern', 'string': 'str'}, returns='Match?', pure_keys=['self', 'string'], trusted=True)
 contract('re.Match.group', params={'self': 'Match'}, returns='str', pure_keys=['self'], trusted=True)
 
+COLON = ':'
 INV = ['len(shlibs) + len(patterns) == NP', 'len(patterns) >= 0']
 contract(S + 'resolve_from_ldd_output',
          params={'libraries': 'list[str]', 'output': 'str'}, returns='list[str]', props=('C19',),
@@ -40,7 +41,10 @@ contract(S + 'resolve_from_ldd_output',
                     'var_types': {'word': 'str', 'line': 'str', 'library': 'str'}},
                 3: {'invariant': INV, 'modifies': ['patterns{}', 'shlibs[]'], 'var_types': {'word': 'str', 'library': 'str'}},
                 4: {'invariant': INV, 'modifies': ['patterns{}', 'shlibs[]'], 'var_types': {'library': 'str', 'pattern': 'Pattern'}}},
-         ensures={'C19.resolve.every_request_resolved_once': "len(result) == NP"},
+         ensures={'C19.resolve.every_request_resolved_once': "len(result) == NP",
+                  'C19.resolve.header_lines_are_ignored': "all_calls('re.Pattern.match', 'not local_line.endswith(COLON)')",
+                  'C19.resolve.resolved_names_are_matched_words': "all_calls('re.Match.group', 'True') and "
+                                                                  "each_call_preceded('re.Match.group', 're.Pattern.match')"},
          note='normal return only when every requested (non-file) library name was matched; otherwise SystemExit (loud failure)')
 
 
